@@ -167,6 +167,22 @@ class C14(object):
                     if tx:
                         it = add_binary(tx, base['y'], base.get('seen'), tag='nb_twin')
                         it['twin_of'] = items.index(base)
+            elif r < 0.90 and lang == 'ja':
+                # bounded synthetic categories for the Japanese grammar: an atom of a shipped category without its
+                # feature triple (as in the failure placeholder's plain NP), in binary and unary position
+                base = rng.choice(pairs)
+                which = rng.randrange(2)
+                txt = base[which]
+                spots = [m for m in re.finditer(r'\[[^\]]*\]', txt)]
+                if spots:
+                    m = rng.choice(spots)
+                    stripped = txt[:m.start()] + txt[m.end():]
+                    if rng.random() < 0.7:
+                        pair = (stripped, base[1]) if which == 0 else (base[0], stripped)
+                        add_binary(pair[0], pair[1], None, tag='mixed_features')
+                    else:
+                        items.append({'kind': 'unary', 'lang': lang, 'x': stripped,
+                                      'table': {'pairs': [[stripped, rng.choice(targets)]]}, 'tag': 'mixed_features_unary'})
             elif r < 0.94:
                 # near-twins of an earlier item: same pair with variable features / all features erased, or swapped.
                 # (a memo keyed by a coarser view of the arguments makes twins interfere)
